@@ -180,7 +180,7 @@ type Exec struct {
 // decide returns the next decision of the current run; ok is false when the
 // number of split points on this path exceeds the budget (the caller merges).
 func (x *Exec) decide() (value bool, ok bool) {
-	if x.spec > 0 || x.decisionPos >= 5 {
+	if x.spec > 0 || x.decisionPos >= 5 || x.top.Abstract {
 		return false, false
 	}
 	if x.decisionPos >= len(x.decisions) {
